@@ -2,12 +2,13 @@
 predicts it and as measured) x {exception, short read, empty read}, plus pairs; local and blob backends; blob with
 prescribed completion orders.  The call must raise if a fault was delivered, else return the true data."""
 import itertools
+import os
 import threading
 import time
 
 import numpy as np
 
-from .. import env, inputs, par, readcalls, session
+from .. import codec, env, inputs, par, readcalls, session, writers
 from ..backends import CountingFile, FakeBlob
 from . import c02
 
@@ -258,9 +259,60 @@ def run(run):
                 case = {'file': fc.label, 'backend': 'blob', 'op': op, 'args': a, 'order': list(perm)}
                 run.case(case, nontrivial=list(perm) != sorted(perm))
                 run.check(ok, f'C17.any-completion-order[{op}]', case, detail, 'ideal')
+    big_blob(run)
+
+
+def big_blob(run, only=None):
+    """range reads above 4 MiB on the remote backend (an inline set of a wide survey; preload of the whole data section): a download that
+    comes back short, empty or failing must surface however the client splits or retries the request"""
+    from seismic_zfp.read import SgzReader
+    d = env.subdir('c17big')
+    p = os.path.join(d, 'wide.sgz')
+    shape = (4, 1024, 640)
+    cube = inputs.cube(shape, run.seed + 77, 'smooth')
+    writers.numpy_to_sgz(p, cube, 16, (4, 4, -1))
+    with open(p, 'rb') as f:
+        data = f.read()
+    with env.quiet():
+        with SgzReader(p) as r0:
+            ideal = r0.read_inline(1)
+    for preload in (False, True):
+        # how many requests the fault-free call makes (after / during open)
+        h = FakeBlob(data, name=p)
+        with env.quiet():
+            r = SgzReader(h, preload=preload)
+        n_open = h.count
+        with env.quiet():
+            r.read_inline(1)
+        n_all = h.count
+        first = 0 if preload else n_open
+        for k in range(first, n_all):
+            for kind in KINDS + ('short512',):
+                case = {'file': 'wide(4, 1024, 640)r16', 'backend': 'blob', 'op': 'read_inline', 'args': [1], 'preload': preload, 'faults': {str(k): kind}}
+                if only is not None and only != case:
+                    continue
+                run.case(case)
+                h = FakeBlob(data, name=p, faults={k: kind})
+                try:
+                    with env.quiet():
+                        r = SgzReader(h, preload=preload)
+                        out = r.read_inline(1)
+                    delivered = list(h.delivered)
+                    if delivered:
+                        run.fail('C17.fault-surfaces[large-range]', case, 'returned ' + ('the true data' if codec.same_bits(out, ideal) else 'wrong samples'), 'an exception')
+                    else:
+                        run.check(codec.same_bits(out, ideal), 'C17.fault-free-true[large-range]', case, None, 'ideal')
+                except BaseException as e:
+                    if isinstance(e, (KeyboardInterrupt, SystemExit, MemoryError)):
+                        raise
+                    run.check(bool(h.delivered), 'C17.fault-surfaces[large-range]', case, f'raise {type(e).__name__} without a delivered fault', 'value')
+    os.remove(p)
 
 
 def replay(run, rep):
+    if rep['case'].get('file', '').startswith('wide('):
+        big_blob(run, only=rep['case'])
+        return
     case = rep['case']
     fx = [p for p in inputs.fixture_sgz() if p.endswith('/' + case['file'])]
     if fx:
